@@ -11,12 +11,14 @@ use crate::e2e::*;
 use crate::engine::*;
 use crate::{vensure, vfail};
 
-pub const RULE: &str = "configurations: defaults, extremes (0, 1, 255 / 4000-5000) and dense windows (every value within +-3 quick / +-20 thorough) around where buffer arithmetic places a boundary - UDP max_response_peers near 112/338 (io_uring, v6/v4) and 454/1362 (mio), max_scrape_torrents near 170 (io_uring) and up to 255; HTTP max_peers near 438 (v6) / 1322 (v4), scrapes of 50..65 distinct hashes under max_scrape_torrents in {1, 50, 100}; both backends and address families. For each configuration the tracker is started; either run() refuses it at start-up, or the worst-case accepted requests are issued against it: one torrent is filled with max+1 peers of the family and an announce asks for the maximum; the longest scrape allowed (<= limit, <= what the request buffer takes). Oracle (the arithmetic only aims the generator and is never used by it): the client receives the complete reply - UDP datagram parses with the independent decoder and has min(max, swarm) peers / min(n, limit) entries; HTTP passes the strict framing and bencode readers and the connection survives. non-trivial = worst-case reply within 64 bytes of a buffer size, or the configuration refused; distinct = distinct configuration";
+pub const RULE: &str = "configurations: defaults, extremes (0, 1, 255 / 4000-5000) and dense windows (every value within +-3 quick / +-20 thorough) around where buffer arithmetic places a boundary - UDP max_response_peers near 112/338 (io_uring, v6/v4) and 454/1362 (mio), max_scrape_torrents near 170 (io_uring) and up to 255; HTTP max_peers near 438 (v6) / 1322 (v4), scrapes of 50..65 distinct hashes under max_scrape_torrents in {1, 50, 100}, and - for max_scrape_torrents from 1 to usize::MAX on 1-3 swarm workers - the longest scrapes the running tracker's request buffer takes (the accepted request length is found by bisection with a padded one-hash scrape against the tracker itself, then scrapes of n_max, n_max-1, 0.9 n_max, limit and limit+1 distinct hashes are sent); both backends and address families. For each configuration the tracker is started; either run() refuses it at start-up, or the worst-case accepted requests are issued against it: one torrent is filled with max+1 peers of the family and an announce asks for the maximum; the longest scrape allowed (<= limit, <= what the request buffer takes). Oracle (the arithmetic only aims the generator and is never used by it): the client receives the complete reply - UDP datagram parses with the independent decoder and has min(max, swarm) peers / min(n, limit) entries; HTTP passes the strict framing and bencode readers and the connection survives. non-trivial = worst-case reply within 64 bytes of a buffer size, or the configuration refused; distinct = distinct configuration";
 
 #[derive(Debug, Clone, Serialize, Deserialize, PartialEq)]
 pub enum Case {
     Udp { uring: bool, v6: bool, max_response_peers: usize, max_scrape_torrents: u8 },
     Http { v6: bool, max_peers: usize, max_scrape_torrents: usize, scrape_len: usize },
+    /// the longest scrape the tracker's request buffer takes, found by probing the tracker itself
+    HttpLongestScrape { swarm_workers: usize, max_scrape_torrents: usize },
 }
 
 fn connect(c: &UdpClient) -> Result<i64, Violation> {
@@ -138,6 +140,109 @@ pub fn prop(case: &Case) -> CaseResult {
                 }
             }
             out.label(if *uring { "uring" } else { "mio" });
+        }
+        Case::HttpLongestScrape { swarm_workers, max_scrape_torrents } => {
+            let t = start_http(|port| {
+                let mut c = http_config(port, 1, *swarm_workers);
+                c.protocol.max_scrape_torrents = *max_scrape_torrents;
+                c.cleaning.torrent_cleaning_interval = 100_000;
+                c.cleaning.max_peer_age = 100_000;
+                c
+            });
+            let t = match t {
+                Ok(t) => t,
+                Err(e) if e.contains("run() returned Err") => {
+                    out.label("configuration-refused");
+                    out.nontrivial = true;
+                    return Ok(out);
+                }
+                Err(e) => return Err(Violation::new("inconclusive-tracker-start", e)),
+            };
+            out.label("configuration-accepted");
+            let ip: IpAddr = "127.0.0.1".parse().unwrap();
+            let to: SocketAddr = (std::net::Ipv4Addr::LOCALHOST, t.port).into();
+            let timeout = Duration::from_secs(5);
+            let send = |req: &str| -> Result<HttpRead, Violation> {
+                let mut c = HttpClient::connect(ip, to).map_err(|e| Violation::new("inconclusive-connect", e))?;
+                c.send_segments(&[req.as_bytes()]).map_err(|e| Violation::new("inconclusive-send", e))?;
+                Ok(c.read_reply(timeout))
+            };
+            let wide_hash = |i: usize| -> String {
+                // 20 ASCII letters, distinct per i, first letter varies fastest (spreads over swarm workers)
+                let mut s = String::new();
+                let mut k = i;
+                for _ in 0..4 {
+                    s.push((b'a' + (k % 26) as u8) as char);
+                    k /= 26;
+                }
+                s.push_str("LONGESTSCRAPEHASH");
+                s.truncate(20);
+                s
+            };
+            // 1. which request lengths does this tracker take? One-hash scrape padded by a header.
+            let padded = |len: usize| -> String {
+                let head = format!("GET /scrape?info_hash={} HTTP/1.1\r\nX-Pad: ", wide_hash(0));
+                let tail = "\r\n\r\n";
+                let pad = len.saturating_sub(head.len() + tail.len());
+                format!("{head}{}{tail}", "p".repeat(pad))
+            };
+            let min_len = padded(0).len();
+            vensure!(matches!(send(&padded(min_len))?, HttpRead::Ok { .. }), "inconclusive-probe", "the shortest scrape was not answered");
+            let (mut lo, mut hi) = (min_len, 65_536usize); // lo answered, hi assumed not
+            if matches!(send(&padded(hi))?, HttpRead::Ok { .. }) {
+                lo = hi;
+            }
+            while hi - lo > 1 && lo < hi {
+                let mid = (lo + hi) / 2;
+                if matches!(send(&padded(mid))?, HttpRead::Ok { .. }) {
+                    lo = mid;
+                } else {
+                    hi = mid;
+                }
+            }
+            let longest_request = lo;
+            // 2. the scrapes with the most hashes that such a request can carry
+            let scrape = |n: usize| -> String {
+                let q: Vec<String> = (0..n).map(|i| format!("info_hash={}", wide_hash(i))).collect();
+                format!("GET /scrape?{} HTTP/1.1\r\n\r\n", q.join("&"))
+            };
+            let mut n_max = 1usize;
+            while scrape(n_max + 1).len() <= longest_request {
+                n_max += 1;
+            }
+            let mut ns = vec![n_max, n_max.saturating_sub(1).max(1), (n_max * 9 / 10).max(1)];
+            if *max_scrape_torrents < n_max {
+                ns.push(*max_scrape_torrents + 1);
+                ns.push((*max_scrape_torrents).max(1));
+            }
+            ns.sort();
+            ns.dedup();
+            for n in ns {
+                let req = scrape(n);
+                out.checks += 1;
+                let body = match send(&req)? {
+                    HttpRead::Ok { body, .. } => body,
+                    other => vfail!(
+                        "reply-dropped",
+                        "accepted configuration max_scrape_torrents={}: the tracker answers requests of up to {longest_request} bytes (probed with a padded one-hash scrape), but a scrape of {n} hashes in a {}-byte request got no complete reply: {:?}",
+                        max_scrape_torrents,
+                        req.len(),
+                        other
+                    ),
+                };
+                let tree = ben_parse_strict(&body[..body.len().saturating_sub(2)]).map_err(|e| Violation::new("reply-malformed", e))?;
+                let entries = match tree.get(b"files") {
+                    Some(Ben::Dict(d)) => d.len(),
+                    _ => vfail!("reply-malformed", "no files dict in the reply to a scrape of {n} hashes"),
+                };
+                vensure!(entries == n.min(*max_scrape_torrents), "reply-cut-short", "scrape of {n} hashes under limit {} answered with {entries} entries", max_scrape_torrents);
+                if body.len() + 45 + 64 >= 4096 {
+                    out.label("scrape-reply-over-4k");
+                }
+            }
+            out.nontrivial = true;
+            out.label("http-longest-scrape");
+            out.label("http");
         }
         Case::Http { v6, max_peers, max_scrape_torrents, scrape_len } => {
             let n = *max_peers;
@@ -273,6 +378,11 @@ pub fn cases(tier: Tier) -> Vec<Case> {
             v.push(Case::Http { v6, max_peers: n, max_scrape_torrents: 100, scrape_len: 65 });
         }
     }
+    for limit in tier.pick(vec![1usize, 64, 100, 117, 255, 100_000], vec![1usize, 2, 50, 64, 65, 66, 100, 116, 117, 118, 130, 131, 132, 200, 255, 256, 1000, 100_000, usize::MAX]) {
+        for swarm_workers in tier.pick(vec![1usize, 3], vec![1usize, 2, 3]) {
+            v.push(Case::HttpLongestScrape { swarm_workers, max_scrape_torrents: limit });
+        }
+    }
     for scrape_len in tier.pick(vec![50usize, 56, 57, 58, 59, 64, 65], (50..=65).collect()) {
         for limit in [1usize, 50, 100] {
             v.push(Case::Http { v6: false, max_peers: 50, max_scrape_torrents: limit, scrape_len });
@@ -290,7 +400,7 @@ pub fn run(ctx: &mut Ctx) {
     ctx.threads = saved.min(6);
     ctx.run_enum("configs", cases(ctx.tier), true, prop);
     ctx.threads = saved;
-    for l in ["configuration-refused", "configuration-accepted", "reply-near-buffer-size", "uring", "mio", "http"] {
+    for l in ["configuration-refused", "configuration-accepted", "reply-near-buffer-size", "uring", "mio", "http", "http-longest-scrape"] {
         ctx.require_label("configs", l, 0.02);
     }
 }
